@@ -463,3 +463,7 @@ def run(ctx):
     r02_1(ctx)
     r02_2(ctx)
     r02_3(ctx)
+    # R02.8 = R07.1: the scattered-point evaluators pair knot vector d with coordinate sdim-1-d (wave 8: a rotation `d-1` agrees
+    # with the reversal for one and two directions only)
+    import rules.C07 as c07
+    ctx.shared(c07.r07_1, 'R07.1', 'R02.8')
